@@ -8,8 +8,12 @@ import fp_cases as fc
 def single_of(c, b):
     n = c.n
     offs = c.offs[b * n:(b + 1) * n] if c.dir == "y" else c.offs[:n]
-    return kc.KickCase("%s_b%d" % (c.cid, b), c.dir, n, 1, c.it, list(offs), c.data[b * n * n:(b + 1) * n * n],
-                       c.stream, "slice %d of %s" % (b, c.cid))
+    s = kc.KickCase("%s_b%d" % (c.cid, b), c.dir, n, 1, c.it, list(offs), c.data[b * n * n:(b + 1) * n * n],
+                    c.stream, "slice %d of %s" % (b, c.cid))
+    if getattr(c, "fill", None) is not None:
+        # probe form: the single-bunch run of the slice under the same conditions (stale caches, pre-filled target, same clamp flag)
+        s.fill, s.clamp = [1.0], getattr(c, "clamp", 0)
+    return s
 
 
 def fp_single_of(c, b):
@@ -48,7 +52,10 @@ def run_fp(ctx, dis):
 def run(ctx):
     ctx.rule = ("multi-bunch kick cases (nb 2..3, per-bunch offset fields for the y kick, both directions, it 1..4, all streams): "
                 "slice b of the nb-bunch result of the implementation vs the implementation's single-bunch run on that slice "
-                "(bit-exact) and vs the model. Non-trivial: bunch b>=1 with non-zero data and a non-zero offset field.")
+                "(bit-exact) and vs the model. Non-trivial: bunch b>=1 with non-zero data and a non-zero offset field. "
+                "Probe stream (harness command kickp): nb 2..4 bunches with different data, filling patterns with and without empty buckets, stale caches, "
+                "pre-filled target, clamp flag of the constructor on in two thirds of the cases - same oracles (the CPU kick reads no clamp flag: "
+                "C08_kick_apply_reads_no_clamp, so the clamped run must equal the model and the single-bunch slices).")
     ctx.rule += (" fp cases: nb 2..3, both stencils, four variants, 1..3 applications: slice b vs the single-bunch run "
                  "(bit-exact on the implementation), tables equal, and vs the model. Non-trivial: b>=1, non-zero data, variant != none."
                  " rf cases: RF (linear, sinusoidal) and drift offset vectors of nb 2..3 maps block by block (hand-written model and the model generated from RFKickMap.cpp / DriftMap.cpp, Gen_RFDrift), multi-bunch RF+drift iteration vs the single-bunch run of every slice (bit-exact).")
@@ -61,6 +68,10 @@ def run(ctx):
     coq = vp_coq.full_check("C08", ctx, fams=("kick", "fp", "rf", "run"))
     nk = 60 if ctx.quick() else 1500
     cases = kc.gen_cases(ctx, nk, nbs=(2, 3), sizes=list(range(4, 25)))
+    # (family st3kick) probe stream: bunches with DIFFERENT data, filling patterns with empty buckets over explicit data, stale caches,
+    # pre-filled target, and the clamp flag of the constructor set in two thirds of the cases (the CPU kick ignores it:
+    # C08_kick_apply_reads_no_clamp; a clamp implemented with another bunch's data shows in the slice oracle)
+    cases += kc.with_rng(ctx, 105, kc.probe_cases, ctx, 30 if ctx.quick() else 500, nbs=(2, 3, 4), clamps=(1, 0, 1))
     singles = []
     for c in cases:
         for b in range(c.nb):
@@ -84,6 +95,7 @@ def run(ctx):
                               sig=dict(kind="kick", clause="slice", dir=c.dir, it_gt1=c.it > 1, b_ge1=b >= 1))
             nz = any(v != 0 for v in c.data[b * n * n:(b + 1) * n * n]) and any(o != 0 for o in c.offs)
             ctx.case_done((c.cid, b), b >= 1 and nz and not undefined)
+        kc.oracle_cache_independent(ctx, c, res[c.cid])
     ctx.sample(cases[0].describe())
     run_fp(ctx, dis)
     # RF kick and drift constructors: every bunch's block of the offset vector, multi-bunch iteration vs single-bunch
@@ -104,6 +116,9 @@ def run(ctx):
         ctx.notes.append("Gen_RFDrift: translator failed; the last-good generated offset fields and the hand-written model agree with the "
                          "implementation on every block of every case of this run and every oracle holds: downgraded to tie 2")
         coq = dict(coq, ok=True)
+    coq = kc.kickloop_downgrade(ctx, coq, dis, kc.probes_evaluated(ctx) >= 20,
+                                "slice b of every multi-bunch kick (plain and probe stream: different bunches, empty-bucket patterns, stale caches, pre-filled "
+                                "target, clamp flag on and off) bit-identical to the single-bunch kick of that slice and equal to the model")
     ctx.assumptions += ["kick maps (KickMap::apply both directions), the Fokker-Planck map, the RF/drift constructors' per-bunch offset blocks, "
                         "WakePotentialMap::update's copy and the run of any number of steps in main()'s order (exact-arithmetic model; wake potentials are "
                         "inputs of the run model: what the field computes for a bunch is C06); renormalisation between steps is C09's per-bunch statement "
